@@ -11,7 +11,7 @@ git -C /repo worktree add --detach -q "$wt" HEAD || exit 9
 mkdir -p "$out"; cp -a "$VH/coq" "$cq"
 for c in "$@"; do
   echo "=== $c (mutated copy)"
-  ( cd "$VH" && VERIF_REPO="$wt" VERIF_COQ_DIR="$cq" VERIF_OUT_DIR="$out" ./check "$c" 2>&1 | grep -v "^KNOWN-FINDING" | cut -c1-300 | tail -6 )
+  ( cd "$VH" && VERIF_REPO="$wt" VERIF_COQ_DIR="$cq" VERIF_OUT_DIR="$out" ./check "$c" 2>&1 | grep -v "^KNOWN-FINDING" | cut -c1-300 | tail -${TRYMUT_TAIL:-6} )
   for r in "$out"/replays/*.json; do [ -f "$r" ] && python3 - "$r" <<'PY'
 import json,sys
 d=json.load(open(sys.argv[1]))
